@@ -35,7 +35,7 @@ STAKES = {"StakeEdge2": {"o1": 65, "o2": 35}, "StakeOdd2": {"o1": 100, "o2": 99}
 ATTEST_MC = [
     dict(name="mc2", tiers=["quick", "thorough"], consts=attest_consts(O2, B3, 2, 2, 3), overrides={"Stake": "StakeEdge2"}),
     dict(name="mc2odd", tiers=["quick", "thorough"], consts=attest_consts(O2, B3, 2, 2, 3), overrides={"Stake": "StakeOdd2"}),
-    dict(name="mc3", tiers=["thorough"], consts=attest_consts(O3, B4, 2, 2, 4), overrides={"Stake": "StakeEdge3"}, timeout=2400),
+    dict(name="mc3", tiers=["thorough"], consts=attest_consts(O3, B4, 1, 2, 4), overrides={"Stake": "StakeEdge3"}, timeout=2400),
 ]
 ATTEST_GEN = [
     dict(name="gendev", tiers=["dev"], consts=attest_consts(O2, B3, 2, 1, 3), overrides={"Stake": "StakeEdge2"},
@@ -47,6 +47,8 @@ ATTEST_GEN = [
     dict(name="gen2full", tiers=["thorough"], consts=attest_consts(O2, B3, 2, 2, 3), overrides={"Stake": "StakeEdge2"},
          harness=[attest_harness("eth", O2, B3, 2, STAKES["StakeEdge2"]), attest_harness("tron", O2, B3, 2, STAKES["StakeEdge2"])],
          shards=16, rej_sample=0),
+    dict(name="gen3", tiers=["thorough"], consts=attest_consts(O3, B4, 1, 1, 3), overrides={"Stake": "StakeEdge3"},
+         harness=[attest_harness("eth", O3, B4, 1, STAKES["StakeEdge3"])], shards=16, rej_sample=0),
 ]
 
 
